@@ -32,7 +32,7 @@ import translate
 translate.GENERATORS.setdefault("Templates", gen_templates.gen_templates)
 
 PROP = "C07"
-LEAN_MODULES = ["IsoDT.Props.C07", "IsoDT.Props.C07b", "IsoDT.Props.C07c"]
+LEAN_MODULES = ["IsoDT.Props.C07", "IsoDT.Props.C07b", "IsoDT.Props.C07c", "IsoDT.Props.C07d"]
 TRUSTED_EXTRA = ["harness/gen_templates.py (compiled regexes / _rec_formats -> Gen/Templates.lean); its "
                  "translation is itself differential-tested (op tmatch: Lean matcher vs re.match on the "
                  "same regex objects)"]
@@ -1303,4 +1303,5 @@ KNOWN_PREDICATES = {"decimal_longer_than_six_digits": _f12}
 
 
 def ops():
-    return [Parse(), BasicOnly(), TMatch()]
+    import tprops
+    return [Parse(), BasicOnly(), TMatch(), tprops.TProps()]
